@@ -423,3 +423,38 @@ Proof.
       * rewrite exec_block_nil. go. cbn [Nat.leb Nat.sub]. rewrite ?Nat.sub_0_r. eexists. split; [reflexivity|]. split; lk; [exact HC | reflexivity].
       * rewrite exec_block_cons, exec_break. eexists. split; [reflexivity|]. split; [lk; exact HC | discriminate].
 Qed.
+
+(* ---------- _get_docstring_starting_at_line ---------- *)
+Definition gdsl_open_part : list stmt :=
+  [SCallRet "_is_empty#1" is_empty_src [("line_str", EVar "line_str")] [];
+   SIf (EVar "_is_empty#1") [SAssign "i" (EAdd (EVar "i") (ENat 1)); SContinue]
+     [SCallRet "_contains_field_definition#2" contains_field_definition_src [("line", EVar "line_str")] [];
+      SCallRet "_is_comment#3" is_comment_src [("line_str", EVar "line_str")] [];
+      SIf (EOr (EVar "_contains_field_definition#2") (EVar "_is_comment#3")) [SReturn (EStr "")]
+        [SIf (EAnd (EIn (EVar "triple_single") (EVar "line_str")) (EIn (EVar "triple_double") (EVar "line_str")))
+           [SAssign "triple_single_index" (EIndexOf (EVar "line_str") (EVar "triple_single"));
+            SAssign "triple_double_index" (EIndexOf (EVar "line_str") (EVar "triple_double"));
+            SIf (EGt (EVar "triple_double_index") (EVar "triple_single_index")) [SAssign "token" (EVar "triple_single")] [SAssign "token" (EVar "triple_double")]]
+           [SIf (EIn (EVar "triple_double") (EVar "line_str")) [SAssign "token" (EVar "triple_double")]
+              [SIf (EIn (EVar "triple_single") (EVar "line_str")) [SAssign "token" (EVar "triple_single")] [SReturn (EStr "")]]]]];
+   SAssign "parts" (ESplitN (EVar "line_str") (EVar "token") 2);
+   SIf (EEq (ELen (EVar "parts")) (ENat 3))
+     [SAssign "between_tokens" (EStrip (EIndex (EVar "parts") 1)); SAppend "docstring_contents" (EVar "between_tokens"); SBreak]
+     [SIf (EEq (ELen (EVar "parts")) (ENat 2)) [SAssign "after_token" (EStrip (EIndex (EVar "parts") 1)); SAppend "docstring_contents" (EVar "after_token")] []]].
+Definition gdsl_body_part : list stmt :=
+  [SIf (EIn (EVar "token") (EVar "line_str"))
+     [SAssign "before" (EIndex (ESplitN (EVar "line_str") (EVar "token") 1) 0); SAppend "docstring_contents" (EStrip (EVar "before")); SBreak]
+     [SAppend "docstring_contents" (EStrip (EVar "line_str"))]].
+Definition gdsl_body : list stmt :=
+  [SAssign "line_str" (EGetItem (EVar "code_lines") (EVar "i"));
+   SIf (EIsNone (EVar "token")) gdsl_open_part gdsl_body_part;
+   SAssign "i" (EAdd (EVar "i") (ENat 1))].
+Definition gdsl_test : expr := EGt (ELen (EVar "code_lines")) (EVar "i").
+Lemma gdsl_shape :
+  get_docstring_starting_at_line_src =
+  [SAssign "i" (EVar "line"); SAssign "token" ENone; SAssign "triple_single" (EStr "'''"); SAssign "triple_double" (EStr """""""");
+   SIf (ENot (EGt (ELen (EVar "code_lines")) (EVar "line"))) [SReturn (EStr "")] [];
+   SAssign "docstring_contents" (EList []);
+   SWhile doc_while_fuel gdsl_test gdsl_body;
+   SReturn (EJoin (String (Ascii.ascii_of_nat 10) "") (EVar "docstring_contents"))].
+Proof. reflexivity. Qed.
